@@ -663,6 +663,19 @@ func isCtxErr(err error) bool {
 
 // checkEnd runs the end-of-run oracles over the recorded history.
 func (x *e1) checkEnd(connAlive bool, faultFree bool) {
+	// C11: the library never writes into a map the application handed to AddPairs
+	if x.sharedMeta != nil {
+		want := sharedMetaTemplate()
+		same := len(want) == len(x.sharedMeta)
+		for k, v := range want {
+			if x.sharedMeta[k] != v {
+				same = false
+			}
+		}
+		if !same {
+			x.viol("metadata", "the map the application passed to AddPairs was modified by later Add calls", fmtMap(x.sharedMeta))
+		}
+	}
 	// C07: wire monitors
 	for _, m := range []*WireMonitor{x.monC, x.monS} {
 		for _, v := range m.Viol {
@@ -728,7 +741,11 @@ func (x *e1) checkEnd(connAlive bool, faultFree bool) {
 					found = true
 				}
 			}
-			if !found && !x.clientEndedBefore(r) && x.serverMovedOn(r) {
+			// (a client that closes the stream without having waited for its outcome
+			// races with the server's SendError: the close may terminate the server's
+			// stream first, and then nothing is sent)
+			abandoned := spec.Shape != ShUnary && r.C.ClosedByMe && r.C.FirstErr == nil
+			if !found && !x.clientEndedBefore(r) && x.serverMovedOn(r) && !abandoned {
 				x.viol("handler-error", "handler returned an error but no error packet with its text was sent: error-class="+errFamily(spec.HErr), fmt.Sprintf("rpc%d want %q", k, trunc(want, 60)))
 			}
 		}
